@@ -73,8 +73,63 @@ def planted():
             yield dict(game=g, route=route)
 
 
+def medium_phase(tier):
+    from harness import medium
+    def gen():
+        for c in medium.medium_cases(18 if tier == "quick" else 300, base_seed=6):
+            for route in ("prune", "no_prune"):
+                yield dict(medium=True, seed=c["seed"], n_inner=c["n_inner"], route=route)
+    return gen
+
+
+def check_medium(case):
+    """Games of 20-300 states: outcome classified by the exact graph attractor (value(0) > 0 or not),
+    termination against the bound derived from the float estimate T^ of the game iterated."""
+    from harness import medium
+    v = Verdict()
+    game = medium.medium_game(case["seed"], case["n_inner"], dead_frac=0.3)
+    prune = case["route"] == "prune"
+    n = len(game["players"])
+    v.key = case
+    v.cls("medium", "route_" + case["route"])
+    pos = medium.positive_set(game)
+    o, info = medium.solve_medium(game, prune)
+    if o is None:
+        v.inconclusive = info
+        return v
+    lab = f"medium game (seed={case['seed']}, {n} states) solve(prune={prune})"
+    v.nontrivial = True
+    if 0 not in pos:
+        v.cls("no_solution_game")
+    if o.kind == "budget":
+        v.fail("did-not-terminate-within-derived-bound", f"{lab}: exceeded the sweep bound derived from T^={info['T']:.3g} "
+                                                         f"/ T^_c={info['Tc']}: {o.exc}", sig="budget")
+    elif o.kind == "skipped":
+        v.inconclusive = "conditioned game T^_c > limit"
+    elif o.kind == "nosol":
+        if not prune or 0 in pos:
+            L, U, _ = medium.bracket_reach(game)
+            if not prune or U[0] > 1e-5:
+                v.fail("no-solution-but-value-positive", f"{lab}: raised no-solution, value of state 0 is about {U[0]!r}")
+    elif o.kind == "ok":
+        if prune and 0 not in pos:
+            v.fail("solved-a-no-solution-game", f"{lab}: returned a result although state 0 is worth 0")
+        well_shaped(v, game, o.result, lab)
+    else:
+        v.fail("unexpected-error", f"{lab}: {o.brief()}", sig=type(o.exc).__name__)
+    return v
+
+
+def slow_cases():
+    for g in games.slow_choice_games():
+        for route in ("prune", "no_prune", "batch"):
+            yield dict(game=g, route=route)
+
+
 def phases(tier):
     return [Phase("planted-zero-value-shapes", enum=planted),
+            Phase("slow-rewarded-loops", enum=slow_cases, note="solves that need 10^3..10^5 sweeps"),
+            Phase("medium-size-games", enum=medium_phase(tier), note="stopping games of 20-300 states"),
             Phase("stopping-games", strategy=lambda: cases(10 if tier == "quick" else 13), examples=(2400, 100000))]
 
 
@@ -113,6 +168,8 @@ def dead_lists(game, pstar):
 
 
 def check_case(case):
+    if case.get("medium"):
+        return check_medium(case)
     v = Verdict()
     game = case["game"]
     route = case["route"]
@@ -127,7 +184,7 @@ def check_case(case):
     except OracleError as e:
         v.inconclusive = f"oracle: {e}"
         return v
-    if T > T_MAX:
+    if facts.too_slow:
         v.inconclusive = "T>300"
         return v
     p0 = pstar[0]
